@@ -180,7 +180,7 @@ func TestOnce(t *testing.T) {
 		})
 	}
 	onceEval(t, "tree", fmt.Sprintf("composite program DAG of 1..%d nodes (all constructors; Let/Ref make one Eval value occur several times)", kit.Pick(40, 200)), 1, func(g *gen) *node {
-		return g.tree(rapid.IntRange(1, kit.Pick(40, 200)).Draw(g.rt, "size"), 0, 0)
+		return g.tree(drawSize(g.rt, kit.Pick(40, 200)), 0, 0)
 	})
 
 	// ---- bare memoisers -------------------------------------------------------------
